@@ -16,21 +16,23 @@ What is proved (every lattice size, every syndrome, every solver answer unless s
   ldpc answer on `(Hx, pz+py, X-row syndrome)` and, under the ldpc contract, the correction
   reproduces the X-row (vertex-operator) syndrome; under the ldpc contracts the BP-OSD stage
   never fails;
-* the look-up that raises: the loop scatter asks `qubit_index` for `tuple_insert(cell, proj_axis,
-  plane)` with `cell` from the `(Lx, Ly)` grid of `decode_plane`; all those keys exist iff
-  `Lx ≤ Ly ≤ Lz`; on the other lattices it raises `KeyError` as soon as `decode_plane` returns an
-  offending cell — kernel-checked witness `XCubeCode(3,2,2)`, X on qubit 0, `KeyError (1, 4, 0)`
-  (known finding D16);
-* **no `KeyError` at all on lattices with `2 ≤ Lx ≤ Ly ≤ Lz`** (`xcube_no_keyerror_of_ascending`):
-  every dict look-up of `decode` (toric `stabilizer_index`, `plane_syndrome`, `connected_planes`,
-  `neighbors` in `find_connected_components`, `qubit_index` in the projection, `state` in
-  `decode_plane`, `qubit_index` in the loop scatter) finds its key, for every syndrome vector, every
-  PyMatching / ldpc answer, every `list(set)` order.
+* **no `KeyError` on any lattice with all sides ≥ 2** (`xcube_no_keyerror`): every dict look-up
+  of `decode` (toric `stabilizer_index`, `plane_syndrome`, `connected_planes`, `neighbors` in
+  `find_connected_components`, `qubit_index` in the projection, `state` in `decode_plane`,
+  `qubit_index` in the loop scatter) finds its key, for every syndrome vector, every PyMatching /
+  ldpc answer, every `list(set)` order that keeps the elements;
+* regression (code before 869642d, `XCubeDec.old`: `decode_plane` always given `(Lx, Ly)`): the
+  loop-scatter keys all exist iff `Lx ≤ Ly ≤ Lz` (`old_xcube_loop_keys_exist_iff_ascending`), no
+  `KeyError` on such lattices (`old_xcube_no_keyerror_of_ascending`), kernel-evaluated `KeyError
+  (1, 4, 0)` on `XCubeCode(3,2,2)`, X on qubit 0 (`old_xcube_keyerror_witness_322`), and a
+  kernel-evaluated wrong cube syndrome on the ascending lattice 2×2×3
+  (`old_xcube_cube_syndrome_not_reproduced_223`); the repaired model decodes both inputs to the
+  error itself (`xcube_repaired_on_former_witnesses`).
 
-What is NOT true and therefore not claimed: the Z-row (cube) syndrome is not reproduced in general
-— `xcube_cube_syndrome_not_reproduced_223` is a kernel-checked counterexample on the ascending
-lattice 2×2×3 (X on qubit 2, PyMatching answers that satisfy its contract, result: the zero
-vector).  `XCubeMatchingDecoder` is not a complete decoder in the sense of C05.
+Not claimed: that the cube (Z-row) syndrome is reproduced for every syndrome — that is the
+correctness of the projection / loop-filling heuristic itself (it held on all 1 686 corrections the
+repair was tried on, and is tested by the oracle); `XCubeMatchingDecoder` is not in the list of
+complete decoders of C05.
 
 Not proved: termination of the `while` walk of `get_matched_pairs` (it follows the PyMatching
 answer; a cycle in the answer would make it run forever — the model reports that as `XErr.hang`,
@@ -108,61 +110,17 @@ theorem xcube_matching_error_propagates (solve : WSolver W) (S : BpSolver)
     (d.decode solve S castEv order st s).2.val = .error e :=
   (decode_matching_error solve S castEv order d st s e h).1
 
-/-! ### the `KeyError` (known finding D16) -/
+/-! ### no `KeyError` -/
 
-/-- `decode_plane(loops, (Lx, Ly))` only returns cells `(x', y')` with `x' < 2 Lx`, `y' < 2 Ly`,
-    both even — whatever the loops and whatever the projection axis -/
-theorem decode_plane_returns_cells (loops : List Coord) (Lx Ly : Nat) (cs : List Coord)
-    (h : (decodePlane loops Lx Ly : Out W _).val = .ok cs) : ∀ c ∈ cs, Cell Lx Ly c :=
-  post_decodePlane loops Lx Ly cs h
-
-/-- **Which lattices can raise.**  The keys `tuple_insert(cell, proj_axis, plane)` the loop scatter
-    looks up in `qubit_index` — over all cells of the `(Lx, Ly)` grid, all three projection axes
-    and all planes of the projection axis — all exist iff `Lx ≤ Ly ≤ Lz`. -/
-theorem xcube_loop_keys_exist_iff_ascending (Lx Ly Lz : Nat) (hx : 1 ≤ Lx) (hy : 1 ≤ Ly) (hz : 1 ≤ Lz) :
-    LoopKeysOk Lx Ly Lz ↔ Lx ≤ Ly ∧ Ly ≤ Lz :=
-  loopKeysOk_iff Lx Ly Lz hx hy hz
-
-/-- on a lattice with `Lx ≤ Ly ≤ Lz` the loop scatter raises nothing, for every list of cells
-    (in particular every result of `decode_plane`), every plane and every vector -/
-theorem xcube_loop_scatter_safe_of_ascending (d : XCubeDec W)
-    (hq : d.qubits = XCubeCode.qubits d.Lx d.Ly d.Lz) (hx : 1 ≤ d.Lx) (hxy : d.Lx ≤ d.Ly)
-    (hyz : d.Ly ≤ d.Lz) (proj : Axis) (pp : Int) (hpp : Lat3Db.R1 (2 * d.side proj) pp)
-    (coords : List Coord) (hc : ∀ c ∈ coords, Cell d.Lx d.Ly c) (pc : Vec) :
-    ∃ v, (loopScatter d proj pp coords pc).val = .ok v := by
-  have hok := (loopKeysOk_iff d.Lx d.Ly d.Lz hx (by omega) (by omega)).mpr ⟨hxy, hyz⟩
-  have := errs_loopScatter_ascending d hq hok proj pp hpp coords hc pc
-  cases hv : (loopScatter d proj pp coords pc).val with
-  | ok v => exact ⟨v, rfl⟩
-  | error e => exact (this e hv).elim
-
-/-- a returned cell whose 3-D location is not a qubit raises `KeyError` with that location -/
-theorem xcube_loop_scatter_raises (d : XCubeDec W) (proj : Axis) (pp : Int) (c : Coord)
-    (rest : List Coord) (pc : Vec) (h : tupleInsert c proj.toNat pp ∉ d.qubits) :
-    (loopScatter d proj pp (c :: rest) pc).val = .error (.keyError (tupleInsert c proj.toNat pp)) :=
-  loopScatter_raises d proj pp c rest pc h
-
-/-- **No `KeyError` on ascending lattices.**  For the decoder `__init__` builds on an undeformed
-    `XCubeCode(Lx, Ly, Lz)` with `2 ≤ Lx ≤ Ly ≤ Lz`: for every state of its BP-OSD decoder, every
-    syndrome vector (any length, any entries), every answer of PyMatching and ldpc and every
-    `list(set)` order that keeps the elements, `decode` does not raise `KeyError` — together with
-    `xcube_loop_keys_exist_iff_ascending` and the witness below this is the characterisation of
-    known finding D16. -/
-theorem xcube_no_keyerror_of_ascending (logOdds : Rat → W) (Lx Ly Lz : Nat) (px py pz : List Rat)
-    (cfg : BpCfg) (d : XCubeDec W) (hnew : XCubeDec.new logOdds Lx Ly Lz none px py pz cfg = .ok d)
-    (hx : 2 ≤ Lx) (hxy : Lx ≤ Ly) (hyz : Ly ≤ Lz)
-    (solve : WSolver W) (S : BpSolver) (castEv : Event Rat → Event W) (order : List Int → List Int)
-    (horder : ∀ l x, x ∈ order l ↔ x ∈ l) (st : BpSt) (s : Vec) (k : Coord) :
-    (d.decode solve S castEv order st s).2.val ≠ .error (.keyError k) := by
-  obtain ⟨h1, h2, h3, _⟩ := new_ok_fields logOdds Lx Ly Lz none px py pz cfg d hnew
-  have b := built_of_new logOdds Lx Ly Lz px py pz cfg (by omega) (by omega) (by omega) d hnew
-  have hm := errs_matchingPart solve order horder d b (h1 ▸ hx) (h1 ▸ h2 ▸ hxy) (h2 ▸ h3 ▸ hyz) s
-  intro hk
+/-- shape of the decode result as far as `KeyError` goes: it can only come from the matching part -/
+theorem decode_keyError_from_matching (solve : WSolver W) (S : BpSolver) (castEv : Event Rat → Event W)
+    (order : List Int → List Int) (d : XCubeDec W) (st : BpSt) (s : Vec) (k : Coord)
+    (hk : (d.decode solve S castEv order st s).2.val = .error (.keyError k)) :
+    (matchingPart solve order d s).val = .error (.keyError k) := by
   cases hmv : (matchingPart solve order d s).val with
   | error e =>
     rw [(decode_matching_error solve S castEv order d st s e hmv).1] at hk
-    cases hk
-    exact hm _ hmv k rfl
+    exact hk
   | ok pc =>
     unfold XCubeDec.decode at hk
     simp only [hmv] at hk
@@ -177,17 +135,91 @@ theorem xcube_no_keyerror_of_ascending (logOdds : Rat → W) (Lx Ly Lz : Nat) (p
       rw [Out.bind_val_ok (a := zc) (by simp [hz])] at hk
       split at hk <;> simp at hk
 
+/-- `decode_plane(loops, (La, Lb))` only returns cells `(x', y')` with `x' < 2 La`, `y' < 2 Lb`,
+    both even — whatever the loops -/
+theorem decode_plane_returns_cells (loops : List Coord) (La Lb : Nat) (cs : List Coord)
+    (h : (decodePlane loops La Lb : Out W _).val = .ok cs) : ∀ c ∈ cs, Cell La Lb c :=
+  post_decodePlane loops La Lb cs h
+
+/-- **No `KeyError`, every lattice with sides ≥ 2.**  For the decoder `__init__` builds on an
+    undeformed `XCubeCode(Lx, Ly, Lz)` with `Lx, Ly, Lz ≥ 2` (ordered or not): for every state of
+    its BP-OSD decoder, every syndrome vector (any length, any entries), every answer of PyMatching
+    and ldpc and every `list(set)` order that keeps the elements, `decode` does not raise
+    `KeyError`: each of its dict look-ups finds its key. -/
+theorem xcube_no_keyerror (logOdds : Rat → W) (Lx Ly Lz : Nat) (px py pz : List Rat)
+    (cfg : BpCfg) (d : XCubeDec W) (hnew : XCubeDec.new logOdds Lx Ly Lz none px py pz cfg = .ok d)
+    (hx : 2 ≤ Lx) (hy : 2 ≤ Ly) (hz : 2 ≤ Lz)
+    (solve : WSolver W) (S : BpSolver) (castEv : Event Rat → Event W) (order : List Int → List Int)
+    (horder : ∀ l x, x ∈ order l ↔ x ∈ l) (st : BpSt) (s : Vec) (k : Coord) :
+    (d.decode solve S castEv order st s).2.val ≠ .error (.keyError k) := by
+  obtain ⟨h1, h2, h3, _, _, _, _, _, _, _, _, _, hp⟩ := new_ok_fields logOdds Lx Ly Lz none px py pz cfg d hnew
+  have b := built_of_new logOdds Lx Ly Lz px py pz cfg (by omega) (by omega) (by omega) d hnew
+  have hok : PlaneKeysOk d := planeKeysOk_current d b.geom.qubits (by rw [hp, h1, h2, h3])
+  have hsz : ∀ proj, 1 ≤ (d.planeSizes proj).2 := by
+    intro proj; rw [hp]; cases proj <;> simp only [planeSizesOf] <;> omega
+  intro hk
+  exact errs_matchingPart solve order horder d b (h1 ▸ hx) (h2 ▸ hy) (h3 ▸ hz) hok hsz s _
+    (decode_keyError_from_matching solve S castEv order d st s k hk) k rfl
+
 /-- the `list(set)` order used by the model driver (ascending) keeps the elements, so the theorem
     above applies to it -/
 theorem ascending_keeps_elements (l : List Int) (x : Int) : x ∈ ascending l ↔ x ∈ l :=
   mem_ascending l x
 
-/-- **Witness of the finding (kernel-checked).**  `XCubeCode(3, 2, 2)`, X error on qubit 0,
-    PyMatching answers that solve their sliced syndromes: `decode` raises `KeyError (1, 4, 0)`. -/
-theorem xcube_keyerror_witness_322 :
+/-! ### regression: the code before 869642d (`XCubeDec.old`, former finding D16) -/
+
+/-- **Which lattices could raise.**  With `decode_plane(toric_loop, (Lx, Ly))` whatever the
+    projection axis, the keys `tuple_insert(cell, proj_axis, plane)` the loop scatter looks up in
+    `qubit_index` — over all cells of the `(Lx, Ly)` grid, all three projection axes and all planes
+    of the projection axis — all exist iff `Lx ≤ Ly ≤ Lz`. -/
+theorem old_xcube_loop_keys_exist_iff_ascending (Lx Ly Lz : Nat) (hx : 1 ≤ Lx) (hy : 1 ≤ Ly) (hz : 1 ≤ Lz) :
+    LoopKeysOk Lx Ly Lz ↔ Lx ≤ Ly ∧ Ly ≤ Lz :=
+  loopKeysOk_iff Lx Ly Lz hx hy hz
+
+/-- the same for a decoder object: `XCubeDec.old` has all its loop-scatter keys iff the lattice is
+    ascending, whereas the repaired object always has them -/
+theorem old_vs_repaired_keys (logOdds : Rat → W) (Lx Ly Lz : Nat) (px py pz : List Rat)
+    (cfg : BpCfg) (d : XCubeDec W) (hnew : XCubeDec.new logOdds Lx Ly Lz none px py pz cfg = .ok d)
+    (hx : 1 ≤ Lx) (hy : 1 ≤ Ly) (hz : 1 ≤ Lz) :
+    PlaneKeysOk d ∧ (PlaneKeysOk d.old ↔ Lx ≤ Ly ∧ Ly ≤ Lz) := by
+  obtain ⟨h1, h2, h3, _, _, _, _, _, _, _, _, _, hp⟩ := new_ok_fields logOdds Lx Ly Lz none px py pz cfg d hnew
+  have b := built_of_new logOdds Lx Ly Lz px py pz cfg hx hy hz d hnew
+  refine ⟨planeKeysOk_current d b.geom.qubits (by rw [hp, h1, h2, h3]), ?_⟩
+  have := planeKeysOk_old_iff d b.geom.qubits b.geom.hx b.geom.hy b.geom.hz
+  rwa [h1, h2, h3] at this
+
+/-- a returned cell whose 3-D location is not a qubit raises `KeyError` with that location -/
+theorem xcube_loop_scatter_raises (d : XCubeDec W) (proj : Axis) (pp : Int) (c : Coord)
+    (rest : List Coord) (pc : Vec) (h : tupleInsert c proj.toNat pp ∉ d.qubits) :
+    (loopScatter d proj pp (c :: rest) pc).val = .error (.keyError (tupleInsert c proj.toNat pp)) :=
+  loopScatter_raises d proj pp c rest pc h
+
+/-- the old code raised no `KeyError` on lattices with `2 ≤ Lx ≤ Ly ≤ Lz` (all look-ups, all
+    syndromes, all solver answers) -/
+theorem old_xcube_no_keyerror_of_ascending (logOdds : Rat → W) (Lx Ly Lz : Nat) (px py pz : List Rat)
+    (cfg : BpCfg) (d : XCubeDec W) (hnew : XCubeDec.new logOdds Lx Ly Lz none px py pz cfg = .ok d)
+    (hx : 2 ≤ Lx) (hxy : Lx ≤ Ly) (hyz : Ly ≤ Lz)
+    (solve : WSolver W) (S : BpSolver) (castEv : Event Rat → Event W) (order : List Int → List Int)
+    (horder : ∀ l x, x ∈ order l ↔ x ∈ l) (st : BpSt) (s : Vec) (k : Coord) :
+    (d.old.decode solve S castEv order st s).2.val ≠ .error (.keyError k) := by
+  obtain ⟨h1, h2, h3, _⟩ := new_ok_fields logOdds Lx Ly Lz none px py pz cfg d hnew
+  have b := built_of_new logOdds Lx Ly Lz px py pz cfg (by omega) (by omega) (by omega) d hnew
+  have hok : PlaneKeysOk d.old :=
+    (planeKeysOk_old_iff d b.geom.qubits b.geom.hx b.geom.hy b.geom.hz).mpr
+      ⟨h1 ▸ h2 ▸ hxy, h2 ▸ h3 ▸ hyz⟩
+  have hsz : ∀ proj, 1 ≤ (d.old.planeSizes proj).2 := fun _ => b.geom.hy
+  intro hk
+  exact errs_matchingPart solve order horder d.old (built_old b) (h1 ▸ hx)
+    (show 2 ≤ d.Ly by rw [h2]; omega) (show 2 ≤ d.Lz by rw [h3]; omega) hok hsz s _
+    (decode_keyError_from_matching solve S castEv order d.old st s k hk) k rfl
+
+/-- **Witness of the former finding (kernel-evaluated).**  `XCubeCode(3, 2, 2)`, X error on qubit
+    0, PyMatching answers that solve their sliced syndromes: the old `decode` raises
+    `KeyError (1, 4, 0)`. -/
+theorem old_xcube_keyerror_witness_322 :
     ∃ d, witnessDec 3 2 2 = .ok d ∧
-      (witnessCall d (measureSyndrome d.H (xError 36 0))).val = .error (.keyError [1, 4, 0]) ∧
-      answersSolve (witnessCall d (measureSyndrome d.H (xError 36 0))).events = true := by
+      (witnessCall d.old (measureSyndrome d.H (xError 36 0))).val = .error (.keyError [1, 4, 0]) ∧
+      answersSolve (witnessCall d.old (measureSyndrome d.H (xError 36 0))).events = true := by
   have h := keyErrorCheck322_true
   unfold keyErrorCheck322 at h
   split at h
@@ -204,14 +236,14 @@ theorem xcube_keyerror_witness_322 :
       rw [h1]
     · cases h1
 
-/-- **The cube (Z-row) syndrome is not reproduced in general (kernel-checked counterexample).**
-    `XCubeCode(2, 2, 3)` — an ascending lattice, no exception — X error on qubit 2, PyMatching
-    answers that solve their sliced syndromes, ldpc answering zero on the zero X-row syndrome:
-    `decode` returns the zero vector, whose syndrome is not the measured one. -/
-theorem xcube_cube_syndrome_not_reproduced_223 :
+/-- **The old code also returned wrong cube (Z-row) syndromes without raising (kernel-evaluated).**
+    `XCubeCode(2, 2, 3)` — an ascending lattice — X error on qubit 2, PyMatching answers that solve
+    their sliced syndromes, ldpc answering zero on the zero X-row syndrome: the old `decode` returns
+    the zero vector, whose syndrome is not the measured one. -/
+theorem old_xcube_cube_syndrome_not_reproduced_223 :
     ∃ d, witnessDec 2 2 3 = .ok d ∧
-      (witnessCall d (measureSyndrome d.H (xError 36 2))).val = .ok (List.replicate 72 0) ∧
-      answersSolve (witnessCall d (measureSyndrome d.H (xError 36 2))).events = true ∧
+      (witnessCall d.old (measureSyndrome d.H (xError 36 2))).val = .ok (List.replicate 72 0) ∧
+      answersSolve (witnessCall d.old (measureSyndrome d.H (xError 36 2))).events = true ∧
       measureSyndrome d.H (List.replicate 72 0) ≠ measureSyndrome d.H (xError 36 2) := by
   have h := cubeSyndromeCheck223_true
   unfold cubeSyndromeCheck223 at h
@@ -229,23 +261,60 @@ theorem xcube_cube_syndrome_not_reproduced_223 :
       rw [h1]
     · cases h1
 
+/-- **The repaired code on the two former witnesses (kernel-evaluated)**: with the same PyMatching
+    answers, X on qubit 0 of 3×2×2 and X on qubit 2 of 2×2×3 are decoded to the error itself. -/
+theorem xcube_repaired_on_former_witnesses :
+    (∃ d, witnessDec 3 2 2 = .ok d ∧
+      (witnessCall d (measureSyndrome d.H (xError 36 0))).val = .ok (xError 36 0)) ∧
+    (∃ d, witnessDec 2 2 3 = .ok d ∧
+      (witnessCall d (measureSyndrome d.H (xError 36 2))).val = .ok (xError 36 2)) := by
+  constructor
+  · have h := okCheck322_true
+    unfold okCheck322 at h
+    split at h
+    · cases h
+    · rename_i d hd
+      refine ⟨d, hd, ?_⟩
+      simp only [Bool.and_eq_true] at h
+      have h1 := h.1
+      split at h1
+      · rename_i c hc
+        rw [hc]
+        simp only [beq_iff_eq] at h1
+        rw [h1]
+      · cases h1
+  · have h := okCheck223_true
+    unfold okCheck223 at h
+    split at h
+    · cases h
+    · rename_i d hd
+      refine ⟨d, hd, ?_⟩
+      simp only [Bool.and_eq_true] at h
+      have h1 := h.1
+      split at h1
+      · rename_i c hc
+        rw [hc]
+        simp only [beq_iff_eq] at h1
+        rw [h1]
+      · cases h1
+
 /-! ### non-vacuity -/
 
 /-- on the cubic lattice 2×2×2 an X error on qubit 0 is decoded to itself (an `.ok` call, to which
     the theorems above apply) -/
 example : okCheck222 = true := okCheck222_true
 
-/-- the no-`KeyError` theorem applies to the decoder of the 2×2×3 witness above (an object that
-    exists, an ascending lattice, the driver's order) -/
-example (d : XCubeDec Unit) (h : witnessDec 2 2 3 = .ok d) (s : Vec) (k : Coord) :
+/-- the no-`KeyError` theorem applies to the decoder of the unordered 3×2×2 witness (an object
+    that exists, the driver's order) -/
+example (d : XCubeDec Unit) (h : witnessDec 3 2 2 = .ok d) (s : Vec) (k : Coord) :
     (witnessCall d s).val ≠ .error (.keyError k) :=
-  xcube_no_keyerror_of_ascending (fun _ => ()) 2 2 3 _ _ _ witnessCfg d (by unfold witnessDec at h; exact h)
+  xcube_no_keyerror (fun _ => ()) 3 2 2 _ _ _ witnessCfg d (by unfold witnessDec at h; exact h)
     (by decide) (by decide) (by decide)
     witnessSolve witnessBp dropPriors ascending ascending_keeps_elements BpSt.init s k
 
-example : LoopKeysOk 2 2 3 := (xcube_loop_keys_exist_iff_ascending 2 2 3 (by decide) (by decide) (by decide)).mpr (by decide)
+example : LoopKeysOk 2 2 3 := (old_xcube_loop_keys_exist_iff_ascending 2 2 3 (by decide) (by decide) (by decide)).mpr (by decide)
 example : ¬ LoopKeysOk 3 2 2 := fun h =>
-  absurd ((xcube_loop_keys_exist_iff_ascending 3 2 2 (by decide) (by decide) (by decide)).mp h) (by decide)
+  absurd ((old_xcube_loop_keys_exist_iff_ascending 3 2 2 (by decide) (by decide) (by decide)).mp h) (by decide)
 
 /-- the ldpc contract is satisfiable together with the other hypotheses of `decode_xrows`: a
     two-qubit decoder object on the CSS matrix (XX, ZZ) with the brute-force solver of `C05` -/
